@@ -255,7 +255,7 @@ def case_line(c):
     if c[0] == "FSIZE":
         return "FSIZE %s %s %s" % (c[1], c[2], c[3])
     if c[0] == "NOGETRANDOM":
-        return "NOGETRANDOM %s %s" % (c[1], c[2])
+        return "NOGETRANDOM " + " ".join(c[1:])
     if c[0] == "STDCLOSED":
         return "STDCLOSED %s %s %s" % (c[1], c[2], c[3])
     return repr(c)
@@ -282,7 +282,7 @@ def parse_case(l):
         return ("FSIZE", g[0], g[1], g[2])
     if f[0] == "NOGETRANDOM":
         g = f[1].split()
-        return ("NOGETRANDOM", g[0], g[1])
+        return ("NOGETRANDOM",) + tuple(g)
     if f[0] == "STDCLOSED":
         g = f[1].split()
         return ("STDCLOSED", g[0], g[1], g[2])
@@ -377,13 +377,20 @@ def do_nogetrandom(rn, c):
         d = rn.fresh()
         p = os.path.join(d, "k")
         tr = os.path.join(d, "trace")
-        rc, err = rn.run("strace", ["-f", "-o", tr, "-e", "trace=openat,open,read", rn.mkw, "-k", p, "-b", str(bits)],
+        eof = len(c) > 3 and c[3] == "eof"
+        inj = ["-P", "/dev/urandom", "-P", "/dev/random", "-e", "inject=read:retval=0"] if eof else []
+        rc, err = rn.run("strace", ["-f", "-o", tr, "-e", "trace=openat,open,read"] + inj + [rn.mkw, "-k", p, "-b", str(bits)],
                          env={"C20_IKM": "00", "C20_SALT": salth, "C20_GETRANDOM_FAIL": "1", "C20_LOG": os.path.join(d, "log")})
         s = snap(p)
         trace = open(tr, errors="replace").read() if os.path.exists(tr) else ""
         fds = re.findall(r'open(?:at)?\([^\n]*"/dev/u?random"[^\n]*\) = (\d+)', trace)
         got_bytes = sum(int(n) for fd in fds for n in re.findall(r"read\(%s, [^\n]*\) = (\d+)" % fd, trace))
         shutil.rmtree(d, True)
+        if eof and (rc == 0 or s is not None):
+            return {"runs": obs + [{"rc": rc, "kernel_random_bytes_read": got_bytes}]}, (
+                "getrandom() unavailable (ENOSYS) and every read of the kernel's random device returns 0 bytes: mungekey %s and left %s - a key "
+                "written then holds no kernel entropy" % ("reports success" if rc == 0 else "fails (rc %d)" % rc,
+                                                          "a %s-byte key file" % (len(s[4]) if s and s[4] is not None else "?") if s is not None else "no file")), None
         if rc == 0 and got_bytes == 0:
             obs.append({"rc": rc, "kernel_random_bytes_read": got_bytes})
             return {"runs": obs}, ("getrandom() unavailable (ENOSYS): mungekey reports success and wrote a %s-byte key without reading a single byte "
@@ -721,6 +728,9 @@ def run(ctx):
     fsize = [("FSIZE", str(b), str(l), i) for (b, l) in ((256, 0), (256, 31), (256, 32), (1024, 100), (1024, 127), (1024, 128), (2000, 249),
                                                         (8192, 1), (8192, 1000), (8192, 1023), (8192, 1024), (4096, 511)) for i in ("0", "1")]
     nogr = [("NOGETRANDOM", str(b), "%08x" % sl) for b in (256, 1024, 8192) for sl in (0, 0x01020304)]
+    # ... and the fall-back device gives nothing either (every read of /dev/urandom or /dev/random returns 0 bytes, as a
+    # node with the wrong device numbers in a chroot does): no kernel entropy at all, so no key may be written
+    nogr += [("NOGETRANDOM", str(b), "01020304", "eof") for b in (256, 1024)]
     stdc = [("STDCLOSED", str(b), w, v) for b in (256, 1024) for w in ("2", "12", "012", "0") for v in ("-", "v")]
     pcases = gen_bits(ctx) + gen_umask(ctx) + gen_exist(ctx) + gen_wrap(ctx) + fsize + nogr + stdc
     kcases, kpairs = gen_keys(ctx)
